@@ -221,7 +221,7 @@ pub fn run(cfg: &Cfg) -> Report {
     rep.merge(ex);
     if prop.is_empty() || prop == "C07" { law_block(&mut rep, seed, if cfg.thorough { 1000000 } else { 50000 }); }
     rep.notes.push("exhaustive scope: all 120 populations of 1..=4 individuals with keys in {0,1,2}, every tournament size, both polarities".into());
-    large_tied_populations(&mut rep, seed);
+    crate::watch::guarded("sel: tournaments / best / worst on 2^16 .. 2^17 tied individuals", || large_tied_populations(&mut rep, seed));
     rep
 }
 
